@@ -292,7 +292,7 @@ def peer_enum_lookups(tree, ob):
                     ob.site(SESS, c, '{}.{}: enumeration lookup of a peer value is guarded'.format(cname, m.name))
                 else:
                     ob.violate(SESS, '{}.{}'.format(cname, m.name), src(c), 'a value chosen by the peer is looked up in an enumeration: for a code point this implementation does not know the lookup '
-                               'raises ValueError out of the message handler, the message (e.g. a SESS_TERM with an unassigned reason) is never acted on', c)
+                               'raises ValueError out of the message handler, the message (e.g. a SESS_TERM with an unassigned reason) is never acted on', c, sure=True)
     ob.site(SESS, tree.klass(SESS, 'Messenger'), 'message handlers make no unguarded enumeration lookup of a peer value ({} guarded)'.format(n))
 
 
